@@ -28,7 +28,7 @@ from typing import List, Optional
 
 from hypothesis import strategies as st
 
-from ..core import CaseResult, Family, Violation, pick
+from ..core import CaseResult, Family, HarnessError, Violation, pick
 from ..engines.memwire import Pair, asyncssh
 
 PROPERTY_ID = 'C19'
@@ -689,7 +689,17 @@ def run_hang(h, coro, chunker, what: str):
     """h.run where quiescence before completion is a violation"""
 
     task = h.spawn(coro)
-    h.pump_until(task.done, chunker)
+
+    try:
+        h.pump_until(task.done, chunker, max_steps=1500000)
+    except HarnessError:
+        # never quiescent and never done: the opposite of a hang (the
+        # largest legitimate case takes well under a tenth of this)
+        task.cancel()
+        raise Violation('livelock', '%s: 1.5 million loop steps without '
+                        'completing - something keeps rescheduling itself '
+                        'without making progress' % what,
+                        'livelock:' + what.split(' ')[0]) from None
 
     if not task.done():
         # (cancelled so that a caller that goes on does not race with it)
